@@ -114,7 +114,14 @@ func c15Exec(worker int, j c15Job, window int, fail func(sig, msg string)) (eval
 		if !scaled {
 			return true
 		}
-		for h := from; h >= from-int32(depth) && h >= 0; h-- {
+		// moving the tip back to from-depth needs the hash of the new tip and,
+		// because PutSyncedTo insists on a remembered predecessor, of the block
+		// below it: that is the edge of the window the wallet can follow.
+		lo := from - int32(depth)
+		if depth > 0 {
+			lo--
+		}
+		for h := from; h >= lo && h >= 0; h-- {
 			if !stored[h] {
 				return false
 			}
@@ -207,6 +214,11 @@ func c15Exec(worker int, j c15Job, window int, fail func(sig, msg string)) (eval
 				evals++
 				got, err := s.W.Manager.BlockHash(ns, h)
 				want := c.AtHeight(h).Hash
+				if err != nil && scaled && !stored[h] {
+					// pruned while the tip was higher; nothing is remembered for h,
+					// so nothing wrong is remembered either
+					continue
+				}
 				if err != nil || *got != want {
 					fail("block-hash:"+string(step), fmt.Sprintf("remembered hash for height %d is %v (%v), best chain has %s%s", h, got, err, want, where))
 				}
